@@ -1,28 +1,148 @@
+// slogcheck: repository-specific static checker for relex/slog-agent.
+//
+//	slogcheck -repo /repo -property C03 -tier quick
+//	slogcheck -repo /repo -replay evidence/replay/C03-1.json
+//	slogcheck -repo /repo -dump 'buffer/hybridbuffer.(*bufferer).Accept'
 package main
 
 import (
+	"encoding/json"
+	"flag"
 	"fmt"
 	"os"
+	"path/filepath"
+	"runtime/debug"
+	"sort"
+	"strconv"
+	"strings"
 	"time"
-
-	"golang.org/x/tools/go/callgraph/cha"
-	"golang.org/x/tools/go/callgraph/vta"
-	"golang.org/x/tools/go/packages"
-	"golang.org/x/tools/go/ssa"
-	"golang.org/x/tools/go/ssa/ssautil"
 )
 
+type ruleFn func(c *Ctx)
+
+// registry: property -> rules (filled by the init functions of rules_*.go)
+var registry = map[string][]struct {
+	name string
+	fn   ruleFn
+}{}
+
+func register(prop, name string, fn ruleFn) {
+	registry[prop] = append(registry[prop], struct {
+		name string
+		fn   ruleFn
+	}{name, fn})
+}
+
 func main() {
-	t0 := time.Now()
-	cfg := &packages.Config{Mode: packages.LoadAllSyntax, Dir: "/repo", Env: append(os.Environ(), "GOWORK=off")}
-	pkgs, err := packages.Load(cfg, "./...")
-	if err != nil {
-		panic(err)
+	repo := flag.String("repo", "/repo", "repository to analyse")
+	prop := flag.String("property", "", "property id (C01..C19), or 'all'")
+	tier := flag.String("tier", "", "quick|thorough (default: $VERIF_TIER or quick)")
+	replay := flag.String("replay", "", "replay file of one violated obligation")
+	dump := flag.String("dump", "", "dump SSA of the function with this anchor name")
+	list := flag.Bool("list", false, "list anchor names matching -dump substring")
+	verif := flag.String("verif", "", "verif directory (default: directory above the binary's dir, or cwd)")
+	flag.Parse()
+
+	if *tier == "" {
+		*tier = os.Getenv("VERIF_TIER")
 	}
-	fmt.Println("pkgs", len(pkgs), time.Since(t0))
-	prog, _ := ssautil.AllPackages(pkgs, ssa.InstantiateGenerics)
-	prog.Build()
-	fmt.Println("ssa", time.Since(t0))
-	cg := vta.CallGraph(ssautil.AllFunctions(prog), cha.CallGraph(prog))
-	fmt.Println("cg nodes", len(cg.Nodes), time.Since(t0))
+	if *tier != "thorough" {
+		*tier = "quick"
+	}
+	seed := 0
+	if s := os.Getenv("VERIF_SEED"); s != "" {
+		seed, _ = strconv.Atoi(s)
+	}
+	vdir := *verif
+	if vdir == "" {
+		if exe, err := os.Executable(); err == nil {
+			vdir = filepath.Dir(filepath.Dir(exe))
+		}
+		if _, err := os.Stat(filepath.Join(vdir, "properties.jsonl")); err != nil {
+			vdir, _ = os.Getwd()
+		}
+	}
+	abs, _ := filepath.Abs(*repo)
+	*repo = abs
+
+	code := 0
+	func() {
+		defer func() {
+			if r := recover(); r != nil {
+				if be, ok := r.(brokenErr); ok {
+					fmt.Printf("CHECK-BROKEN: %s\n", be.msg)
+				} else {
+					fmt.Printf("CHECK-BROKEN: internal panic: %v\n%s\n", r, debug.Stack())
+				}
+				code = 2
+			}
+		}()
+		t0 := time.Now()
+		replayID := ""
+		if *replay != "" {
+			b, err := os.ReadFile(*replay)
+			if err != nil {
+				broken("replay: %v", err)
+			}
+			var o Obligation
+			if err := json.Unmarshal(b, &o); err != nil {
+				broken("replay: %v", err)
+			}
+			*prop = o.Property
+			replayID = o.ID
+		}
+		P := loadProg(*repo, *tier == "thorough")
+		if *dump != "" {
+			dumpFns(P, *dump, *list)
+			return
+		}
+		var props []string
+		if *prop == "all" {
+			for p := range registry {
+				props = append(props, p)
+			}
+			sort.Strings(props)
+		} else {
+			if _, ok := registry[*prop]; !ok {
+				broken("no rules registered for property %q", *prop)
+			}
+			props = []string{*prop}
+		}
+		for _, p := range props {
+			c := newCtx(P, p, *tier)
+			for _, r := range registry[p] {
+				c.rulesRun = append(c.rulesRun, r.name)
+				r.fn(c)
+			}
+			if rc := c.finish(vdir, t0, seed, replayID); rc > code {
+				code = rc
+			}
+			t0 = time.Now()
+		}
+	}()
+	os.Exit(code)
+}
+
+func dumpFns(P *Prog, pat string, list bool) {
+	var names []string
+	for a := range P.byAnchor {
+		if strings.Contains(a, pat) {
+			names = append(names, a)
+		}
+	}
+	sort.Strings(names)
+	for _, a := range names {
+		if list {
+			fmt.Println(a)
+			continue
+		}
+		if a != pat {
+			continue
+		}
+		for _, f := range P.byAnchor[a] {
+			if f.Blocks != nil {
+				f.WriteTo(os.Stdout)
+			}
+		}
+	}
 }
